@@ -144,12 +144,26 @@ def main(tier):
                 ok = val == tf
                 if not ok and s in ("floor(", "ceil(", "round(", "trunc(", "truncate("):
                     R = tf[1] if tf[0] == "Ok" else None
-                    ok = R is not None and (M(("if", "_", ("Ok", ("I", ("cast", "f64", "i64", R))), ("Ok", ("|", ("F", R), ("N", R)))), tn) is not None or tn == ("Ok", ("N", R)))
+                    ok = R is not None and (M(("if", "_", ("Ok", ("I", ("cast", "f64", "i64", R))), ("Ok", ("|", ("F", R), ("N", R)))), tn) is not None or M(("if", "_", ("Ok", ("|", ("F", R), ("N", R))), ("Ok", ("I", ("cast", "f64", "i64", R)))), tn) is not None or tn == ("Ok", ("N", R)))
                 if not ok and s in ("sgn(", "sign(", "signum("):
                     ok = M("(if (op gt f64 (a) (lit 0.0 f64)) (Ok (I (lit 1 i64))) (if (op eq f64 (a) (lit 0.0 f64)) (Ok (I (lit 0 i64))) (Ok (I (lit -1 i64)))))", tn) is not None and \
                         M("(if (op eq f64 (a) (lit 0.0 f64)) (Ok (lit 0.0 f64)) (Ok (call f64::signum (a))))", tf) is not None
                 run.ob(ok, "float|%s|%s|%s" % (kind, s, tag), "C15 with a Float operand eval_number's numeric value is eval_f64's operation on the operands' double values",
                        "%s %r (%s)" % (W, s, tag), "number: %s ; f64: %s" % (T.show(val)[:160], T.show(tf)[:160]), sample={"surface": s, "operands": tag, "term": T.show(tf)[:100]} if len(run.samples) < 10 else None)
+    # 3b. variadic min / max: the three evaluators with a shared integer / float grammar select with the minimum /
+    # maximum of their own value type (eval_number: on the operands' double values, returning the operand itself) --
+    # then min/max of the same arguments is the same number in all three
+    from .c11 import minmax_fold, SURFACE
+    for ev in ("eval_i64", "eval_f64", "eval_number"):
+        if ev not in models:
+            continue
+        arms_ = models[ev].tb.eval_arms()
+        for ctor in ("Min", "Max"):
+            r_, err_ = chain.function_chain(models[ev], SURFACE[ctor])
+            a_ = arms_.get(r_[0]) if r_ else None
+            ok, detail = minmax_fold(ev, ctor, a_["term"]) if a_ else (False, "no arm (%s)" % err_)
+            run.ob(ok, "agg|%s|%s" % (ev, ctor), "C15 %s selects the same argument in eval_i64, eval_f64 and eval_number: the %s of the arguments as numbers" % (ctor.lower(), "minimum" if ctor == "Min" else "maximum"),
+                   where(models[ev], "::ast::eval") + " arm " + ctor, detail, sample={"evaluator": ev, "aggregate": ctor, "schema": detail[:100]} if ev == "eval_number" else None)
     # 4. complex / decimal <-> f64: same-named routing
     for ev in ("eval_complex", "eval_decimal"):
         if ev not in models or "eval_f64" not in models:
